@@ -377,7 +377,7 @@ pub fn run(s: &Scn, ctx: &mut RunCtx) -> RunOutput {
             }
         }
         if t.status == Status::Panicked {
-            let scripted = r.script.iter().any(|b| b.out == Outcome::Panic);
+            let scripted = r.script.iter().any(|b| matches!(b.out, Outcome::Panic | Outcome::PanicInCall));
             if !scripted || t.panic_msg.as_deref() != Some("SimPanic") {
                 world::violation("C05.attempt_bounds", "panic", format!("request {} panicked: {:?}", i, t.panic_msg));
             }
